@@ -35,7 +35,15 @@ SCRATCH_ROOT = Path(os.environ.get("VERIF_SCRATCH", "/var/tmp/tcheran-verif"))
 KANI_FLAGS = ["-Z", "stubbing", "-Z", "function-contracts", "-Z", "unstable-options"]
 NCPU = os.cpu_count() or 4
 MAX_JOBS = int(os.environ.get("VERIF_JOBS", str(min(16, NCPU))))
-MEM_CAP_GB = float(os.environ.get("VERIF_MEM_CAP_GB", "44"))
+def _default_mem_cap():
+    try:
+        kb = int(re.search(r"MemTotal:\s+(\d+)", open("/proc/meminfo").read()).group(1))
+        return max(8.0, min(52.0, kb / 1024 / 1024 * 0.84))
+    except Exception:
+        return 44.0
+
+
+MEM_CAP_GB = float(os.environ.get("VERIF_MEM_CAP_GB", "0")) or _default_mem_cap()
 TIME_SCALE = float(os.environ.get("VERIF_TIME_SCALE", "1.0"))
 
 ENV = dict(os.environ)
@@ -70,8 +78,8 @@ class Obligation:
         # extra cargo-kani arguments for this obligation (e.g. --no-memory-safety-checks); recorded in the evidence as an assumption
         self.kani_args = d.get("kani_args", "").split()
         self.assumes = [x.strip() for x in d.get("assumes", "").split(";") if x.strip()]
-        if self.kani_args:
-            self.assumes.append("checks switched off for this obligation: " + " ".join(self.kani_args))
+        if any(a.startswith("--no-") for a in self.kani_args):
+            self.assumes.append("checks switched off for this obligation: " + " ".join(a for a in self.kani_args if a.startswith("--no-")))
         self.status = d.get("status", "registered")
         self.canary = d.get("canary", "false").lower() == "true"
         self.min_covers = int(d.get("covers", "1"))
@@ -380,6 +388,7 @@ def expand_closures(text, root, record):
 
 
 LOOPSTEP_RE = re.compile(r"^[ \t]*//@@[ \t]*loopstep[ \t]*:[ \t]*(\S+)[ \t]*::[ \t]*(.*?)[ \t]*::[ \t]*(.*?)[ \t]*=>[ \t]*(.*?)[ \t]*;;[ \t]*(.*?)[ \t]*;;[ \t]*(.*?)[ \t]*;;[ \t]*(.*)$", re.M)
+SUFFIX_RE = re.compile(r"^[ \t]*//@@[ \t]*suffix[ \t]*:[ \t]*(\S+)[ \t]*::[ \t]*(.*?)[ \t]*::[ \t]*(.*?)[ \t]*=>[ \t]*(.*?)[ \t]*;;[ \t]*(.*)$", re.M)
 PREFIX_RE = re.compile(r"^[ \t]*//@@[ \t]*prefix[ \t]*:[ \t]*(\S+)[ \t]*::[ \t]*(.*?)[ \t]*::[ \t]*(.*?)[ \t]*=>[ \t]*(.*?)[ \t]*;;[ \t]*(.*)$", re.M)
 
 
@@ -424,7 +433,23 @@ def expand_loopsteps(text, root, record):
                        "substitutions": ["function text up to the loop, verbatim; epilogue added by the contract"]})
         return "%s {\n%s\n%s\n}" % (sig, inner, epilogue)
 
+    def repl_suffix(m):
+        """//@@ suffix: <relpath> :: <fn locator> :: <from literal> => <signature> ;; <prologue>
+        the text of the function from the `from` literal to its closing brace, verbatim, preceded by the prologue."""
+        rel, locator, frm, sig, prologue = [m.group(i) for i in range(1, 6)]
+        item = extract_item(rel, locator, root)
+        mask, f0, f1 = _fn_block(item)
+        k = mask.find(frm, f0)
+        if k < 0:
+            raise LookupError("anchor lost: suffix start %r not found in %s" % (frm, locator))
+        inner = item[k:f1]
+        record.append({"source": ("src/" + rel) if not rel.startswith("src/") else rel, "item": locator + " / suffix from " + frm,
+                       "sha256_of_source_span": sha256(inner), "renamed_to": sig,
+                       "substitutions": ["function text from the anchor to the end, verbatim; prologue added by the contract"]})
+        return "%s {\n%s\n%s\n}" % (sig, prologue, inner)
+
     text = LOOPSTEP_RE.sub(repl_loop, text)
+    text = SUFFIX_RE.sub(repl_suffix, text)
     return PREFIX_RE.sub(repl_prefix, text)
 
 
